@@ -92,23 +92,39 @@ Fixpoint all2 {A B} (f : A -> B -> bool) (a : list A) (b : list B) {struct a} : 
   end.
 
 (** a null element is explained: the resolver said "no such entity" (nil, nil), or an error is reported *)
-Definition null_explained (c : c20_case) (x : option string * rep) (obs : elem) : bool :=
+(** the call the kept finding makes for a representation of a batch type: the resolver its group's FIRST
+    representation selects, with this representation's values for that resolver's keys *)
+Definition group_echo (c : c20_case) (e : entity) (tn : string) (r : rep) : option string :=
+  match first_of_type tn (c_reps c) with
+  | Some r0 => match resolver_for (en_resolvers e) r0 with
+               | Some rs => match keys_multi r (rs_keys rs) with
+                            | MKOk keys => Some (echo_multi rs keys)
+                            | _ => None end
+               | None => None end
+  | None => None end.
+
+Definition null_explained (lenient : bool) (c : c20_case) (x : option string * rep) (obs : elem) : bool :=
   match obs with
   | ElEntity _ _ _ => true
   | ElNull =>
       match c_errs c with _ :: _ => true | [] =>
         match fst x with
         | Some tn => match find_entity (c_ents c) tn with
-                     | Some e => match own_echo e (snd x) with
-                                 | Some echo => match plan_of (c_oracle c) echo with PNull => true | _ => false end
-                                 | None => false end
+                     | Some e =>
+                         match own_echo e (snd x) with
+                         | Some echo => match plan_of (c_oracle c) echo with PNull => true | _ => false end
+                         | None => false end
+                         || (lenient && is_multi (c_ents c) tn &&
+                             match group_echo c e tn (snd x) with
+                             | Some echo => match plan_of (c_oracle c) echo with PNull => true | _ => false end
+                             | None => false end)
                      | None => false end
         | None => false end
       end
   end.
 
 Definition c20_mon_gen (lenient : bool) (c : c20_case) : bool :=
-  all2 (elem_ok lenient c) (c_reps c) (c_list c) && all2 (null_explained c) (c_reps c) (c_list c).
+  all2 (elem_ok lenient c) (c_reps c) (c_list c) && all2 (null_explained lenient c) (c_reps c) (c_list c).
 Definition c20_mon := c20_mon_gen false.
 Definition c20_monmixed := c20_mon_gen true.
 
